@@ -695,6 +695,10 @@ def run(info, out):
                         if s == "block3":
                             it = impl_trace(lines)[0]
                             print("replay: block3 trace (%d events, last 14)" % len(it), it[-14:], "| model trace", mirror_events(ex["mir"])[-14:], "| model exit", ex["mir"]["exit"])
+                        elif s in ("block", "updown"):
+                            print("replay: %s trace" % s, solver_trace(lines, PJV_RE)[-16:], "| model trace", tup_events(ex["pjv"][s]["trace"])[-16:], "| model exit", ex["pjv"][s]["exit"], "F", ex["pjv"][s]["F"])
+                        else:
+                            print("replay: %s trace" % s, solver_trace(lines, LH_RE)[-16:], "| model trace", tup_events(ex["lh"]["trace"])[-16:], "| model exit", ex["lh"]["exit"], "P", ex["lh"]["P"])
             elif j.get("sparse"):
                 sp = j["sparse"]
                 c = {"kind": "sparse", "n": sp["n"], "T": {(i, jj): v for i, jj, v in sp["T"]}, "b": sp["b"]}
